@@ -792,6 +792,9 @@ def run_case(case: dict, seed: int) -> dict:
                 for f in ("dek", "mac"):
                     if got[f] != romc[f]:
                         viol.append(("C04.parse-header-field", f"{kind[:3]}:{f}", f"parser {f} differs from the unwrapped key"))
+        # ---- history on the same objects: change a command, build again (the second file is a file SPSDK builds, too)
+        if case.get("hist") and rom is not None:
+            viol += run_history(case["hist"], img, ekw, given, kind, exp, zero_fill, seed, count)
         # ---- tamper sweep
         if case.get("t") and rom is not None:
             tamper_sweep(kind, data, given["kek"], rom, base_parse_ok, viol, count,
@@ -805,6 +808,71 @@ def run_case(case: dict, seed: int) -> dict:
             else:
                 os.environ["TZ"] = old_tz
             time.tzset()
+
+
+HIST_STEPS = ["same", "swap", "grow", "shrink", "addr", "append"]
+
+
+def run_history(steps: list, img, ekw: dict, given: dict, kind: str, exp: dict, zero_fill: bool, seed: int, count: dict) -> list:
+    """Apply each step to the live builder objects (and to a copy of the expectation), export again, let the ROM model
+    decode the new file.  swap/grow/shrink replace the data of every LOAD by other bytes (same / longer / shorter),
+    addr moves every LOAD, append adds a NOP to every section.  A padded count (known finding of the base clause) is not
+    repeated here."""
+    import copy
+
+    from spsdk.sbfile.sb2.commands import CmdLoad, CmdNop
+
+    from vf.ref import rom_sb2
+
+    viol: list = []
+    exp = copy.deepcopy(exp)
+    for n, step in enumerate(steps):
+        tag = "+".join(steps[:n + 1])
+        for si, sect in enumerate(img):
+            ecmds = exp["sections"][si]["commands"]
+            for ci, cmd in enumerate(sect):
+                if not isinstance(cmd, CmdLoad):
+                    continue
+                cur = len(cmd.data)
+                if step in ("swap", "grow", "shrink"):
+                    ln = {"swap": cur, "grow": cur + 5, "shrink": max(1, cur - 17)}[step]
+                    new = core.seeded_bytes(seed, f"hist|{n}|{si}|{ci}|{step}", ln)
+                    cmd.data = new
+                    ecmds[ci]["payload"] = new
+                elif step == "addr":
+                    cmd.address = (cmd.address + 0x40) & 0xFFFFFFFF
+                    ecmds[ci]["address"] = (ecmds[ci]["address"] + 0x40) & 0xFFFFFFFF
+            if step == "append":
+                sect.append(CmdNop())
+                ecmds.append({"cmd": "nop"})
+        count["history_exports"] = count.get("history_exports", 0) + 1
+        try:
+            data = do_export(img, ekw)
+        except Rejected as e:
+            viol.append(("C04.history", f"{step}:export-rejected", f"after {tag}: {e}"[:300]))
+            break
+        except WrongType as e:
+            viol.append(("C04.history", f"{step}:export-raises-{type(e.exc).__name__}", f"after {tag}: {e}"[:300]))
+            break
+        try:
+            rom = rom_sb2.process(data, given["kek"])
+        except rom_sb2.RomReject as e:
+            viol.append(("C04.history", f"{step}:rom-rejects:{e.stage}", f"after {tag}: {e}"[:300]))
+            break
+        got = rom_content(rom)
+        exp_h = dict(exp)
+        for si, sct in enumerate(exp_h["sections"]):
+            blocks = sum(1 + (len(c["payload"]) + 15) // 16 if c["cmd"] == "load" else 1 for c in sct["commands"])
+            sct["hmac_count"] = min(sct["hmac_count"], blocks) if step != "append" else got["sections"][si]["hmac_count"]
+        tmp: list = []
+        compare_content("rom", kind, exp_h, got, zero_fill, tmp)
+        for cl, disc, det in tmp:
+            if disc.endswith("count-padded"):
+                continue
+            viol.append(("C04.history", f"{step}:{cl.split('.', 1)[1]}:{disc}", f"after {tag}: {det}"[:400]))
+        if any(v[0] == "C04.history" for v in viol):
+            break
+    return viol
 
 
 def _pad4(der: bytes) -> bytes:
@@ -1009,6 +1077,13 @@ def enumerate_cases(tier: str) -> dict:
                                 {"flags": 0x8008, "secs": "0,1"})
     fam["tamper-all-bits"] = [{"k": kind, "h": dep, "t": 768 if quick else 1024, "tp": [i, 16]} for kind in KINDS
                               for dep in deps if applicable(dep, kind) for i in range(16)]
+    # hist: object histories (build, change commands, build again) - every single step and every ordered pair
+    hprogs = [[[0, 2, [["load", A_MID, 0, 48], ["nop"], ["load", A_MID + 0x100, 0, 5]]]],
+              [[0, 1, [["load", A_MID, 0, 16]]], [1, 1, [["nop"], ["load", A_MID + 0x200, 0, 33]]]]]
+    hsteps = [[a] for a in HIST_STEPS] + [[a, b] for a in HIST_STEPS for b in HIST_STEPS]
+    if not quick:
+        hsteps += [[a, b, c] for a in HIST_STEPS for b in HIST_STEPS for c in HIST_STEPS]
+    fam["hist"] = [{"k": kind, "s": sp, "hist": st} for kind in KINDS for sp in hprogs for st in hsteps]
     # cli
     cli_deps = [{}] + [{n: v} for n in ("pv", "cv", "flags", "ts", "dek", "mac", "nonce", "bn") for v in DIMS[n][1:]
                        if not (n == "nonce" and v not in ("zero", "seed"))]
